@@ -25,6 +25,8 @@ pub const H_GAS: usize = 8;
 pub const H_APP: usize = 9;
 pub const NH: usize = 10;
 pub const STRANGER: usize = 6;
+/// holder the probe tokens refuse to credit
+pub const BLOCKED_USER: usize = 5;
 
 #[derive(Clone, Copy, Debug, PartialEq, Eq, Hash)]
 pub enum TokKind {
@@ -159,6 +161,8 @@ impl<'a> IExec<'a> {
                 let _: () = env.invoke_contract(&a, &soroban_sdk::Symbol::new(&env, "give"), (h[u].clone(), 1000i128).into_val(&env));
                 bal.insert(u, 1000i128);
             }
+            // the probe tokens refuse to credit user 5 (a receiver-dependent token failure)
+            let _: () = env.invoke_contract(&a, &soroban_sdk::Symbol::new(&env, "set_blocked"), (h[BLOCKED_USER].clone(), true).into_val(&env));
             toks.push(Tok {
                 id_bytes: addr_bytes(&a),
                 kind: TokKind::Probe,
